@@ -16,6 +16,7 @@ from pulser import Pulse
 class SeqProp(PropCheck):
     focus = None
     shard = 60
+    extra_targets = ["Model/Chan.v", "Model/SeqSnap.v"]
 
     def gen_case(self, rng: random.Random, tier: str):
         n_ops = rng.randint(3, 25) if tier == "quick" else rng.randint(3, 60)
